@@ -46,7 +46,7 @@ type (
 // Regex patterns
 const (
 	_FULLPATTERN  = `('[^']*'+|\<\-|\*|[\w]+|\[[^\[\]]*\]|\{(?:'[^']*'|[^\{\}])*\})`
-	_ARRAYPATTERN = `\([^\)]*\)+|\w+`
+	_ARRAYPATTERN = `\([^\)]*\)+|-?\w+`
 	_PIPEPATTERN  = `('[^']*'+|\w+)(!?\|\w+)?`
 )
 
